@@ -380,6 +380,13 @@ def run(ctx):
              'open flags %s (need O_WRONLY|O_APPEND|O_CREAT: without O_APPEND two deliveries that open the mbox before either locks it overwrite each other)' % [oct(f_) if isinstance(f_, int) else f_ for f_ in oh.flags])
     r3.expect_min(9)
 
+    r5 = rep.rule('C12.5-copy-results', 'R-TABLE', 'substdio_copy() tells its callers apart: 0 = copied, -2 = read error, -3 = write error (maildir_child and qmail-queue treat anything else as copied); the read side under it reports errors as errors')
+    from rules import libtab
+    for f_ in (libtab.substdio_copy_sites, libtab.substdio_read_sites):
+        for inst, v in sorted(f_(db, rep, prog).items()):
+            r5.check(v[0], inst, v[1], v[2], v[3])
+    r5.expect_min(4)
+
     r4 = rep.rule('C12.4-mbox-quoting', 'R-GUARD', '">" is written exactly for lines gfrom() accepts; gfrom skips ">"s and compares 5 bytes with "From "; the From_ line maps space, tab and newline of the sender to "-"')
     gts = [c for c in mb.calls(('substdio_bput', 'substdio_put')) if c.args[1].string == '>']
     ok = len(gts) == 1 and any(c.strip().k == 'call' and c.strip().callee == 'gfrom' and t is True for c, t in mb.guards(gts[0]) or [])
